@@ -164,6 +164,66 @@ class SelP(_DockProp):
         return {"label_keys_evaluated": getattr(self, "nsel", 0)}
 
 
+# ---------------------------------------------------------------------------------------------------------------
+# part 3: "(and JSON key extracted without a field list)" -- `| json` exposes every key under its sanitised name
+from props.engcommon import EngProp as _EngProp
+from egen import JLine as _JLine, base_labels as _base_labels, labels_coq as _labels_coq, dedup as _dedup
+from vlib import cZ as _cZ
+
+
+class JsonKeyP(_EngProp):
+    id = "C20"
+    name = "jsonkeys"
+    rule = ("part `jsonkeys`: records whose line is a JSON object with 1-3 keys drawn from every string of length <= 2 over the valid-UTF-8 part of the alphabet, dotted / dashed / "
+            "slashed names (http.status, k8s.pod/name, user-agent), keys starting with a digit, keys that collide after sanitisation and random longer keys; query `| json` "
+            "without a field list through Engine.Eval; demanded: no record dropped, line unchanged, and the full label set of every entry is the record's labels plus "
+            "sanitised(key)=value for every key (generator's own KeyToLabel; for colliding keys the last one in document order wins); everything equals the model.")
+
+    def gen(self, rng, tier):
+        g = _EGen(rng)
+        ualpha = [a.decode() for a in ALPHA if a not in (b"\xff", b"\xc3")]
+        short = ["".join(t) for n in (1, 2) for t in itertools.product(ualpha, repeat=n)]
+        fixed = ["http.status", "k8s.pod/name", "user-agent", "a.b", "a.b.c", ".a", "a.", "9x", "x y", "a.b-c", "é.x", "level", "com.docker.compose.service"]
+        keys = fixed + rng.sample(short, {"quick": 50, "thorough": len(short), "search": 80}[tier])
+        for _ in range({"quick": 30, "thorough": 300, "search": 60}[tier]):
+            keys.append("".join(rng.choice(ualpha) for _ in range(rng.randint(3, 10))))
+        self.njson = len(keys)
+        cases = []
+        for i in range(0, len(keys), 4):
+            cases.append(self.one(rng, g, keys[i:i + 4]))
+        return cases
+
+    def one(self, rng, g, ks):
+        jsonl, docs, lines = [], [], []
+        for k in ks:
+            pairs = [(k, rng.choice(["v", "500", "x y"]))]
+            if rng.random() < 0.4:
+                pairs.append((rng.choice(["level", "other", k.replace(".", "_"), k.replace(".", "-")]), "w"))
+            rng.shuffle(pairs)
+            jl = _JLine(rng, pairs)
+            docs.append(jl); lines.append(jl.text); jsonl.append((_B(jl.text), jl.coq))
+        recs = g.records(lines, with_attrs=False)
+        for r in recs:
+            r["attrs"] = [("app", "web")] if rng.random() < 0.5 else []
+        pipe = [g.st_json()]
+        sel = g.selector(extra=False)
+        q = g.query_text(sel, pipe, "spaced")
+        rels = ["RelCount 0 %d" % len(recs)]
+        for r, jl in zip(recs, docs):
+            d = _base_labels(r)
+            for k, x in jl.complete:
+                if x.render is not None:
+                    d[_ktl(_B(k))] = x.render
+            rels.append("RelLine 0 %s %s" % (_cZ(r["ts"]), cbytes(r["line"])))
+            rels.append("RelLabels 0 %s %s" % (_cZ(r["ts"]), _labels_coq(d)))
+        return {"kind": "jsonkeys", "recs": [g.rec_json(r) for r in recs], "oracle": _oracles_coq(jsonl=_dedup(jsonl)),
+                "evals": [{"q": b64e(q), "qcoq": g.query_coq(sel, pipe), "label": [], "line": [], "limit": 0}], "rels": rels,
+                "stages": ["json"], "note": "json keys %r" % (ks,)}
+
+    def extra_coverage(self, tier):
+        return {"json_keys_evaluated": getattr(self, "njson", 0)}
+
+
 P.name = "mapping"
 PROP = P()
-PROP.parts = [PROP, SelP()]
+PROP.parts = [PROP, SelP(), JsonKeyP()]
